@@ -188,11 +188,19 @@ def r6(ctx, rid):
         raise core.AnchorLost('sort of opened blobs in src/storage/core.rs: %d' % n)
 
 
+def r7(ctx, rid):
+    """C09.P12 instance: a leaf of the on-disk index starts at the first (newest) header of a key - otherwise the latest-version
+    lookup of a closed blob answers with an older version"""
+    import props.c09 as c09
+    c09.p12(ctx, rid)
+
+
 RULES = [
     Rule('C01.R1', 'equal timestamps: the in-memory insertion position is behind every record with the same timestamp (C02.U10 instance)', r1, 1),
     Rule('C01.R2', 'the point lookup consults every candidate blob before it returns Ok (C02.U6 instance)', r2, 1),
     Rule('C01.R3', 'the cross-blob merge replaces the accumulated result only on a strictly greater timestamp (first-seen wins ties)', r3, 2),
     Rule('C01.R4', 'the merge sees the active blob first, then the closed blobs newest to oldest through an order-preserving stream', r4, 1),
     Rule('C01.R6', 'opened blobs are ordered by their numeric id and nothing else', r6, 1),
+    Rule('C01.R7', 'a leaf of the on-disk index starts at the newest header of a key (C09.P12 instance)', r7, 1),
     Rule('C01.R5', 'the in-memory latest-version lookup takes the last element of the ascending per-key vector', r5, 1),
 ]
